@@ -25,13 +25,14 @@ def register(R, P):
     prop("C01", EXECUTOR + ["CellsImpl.on_eval_formula", "CellsImpl._store_value", "CellsImpl.has_node", "CellsImpl.get_value_from_key",
                             "key_to_node", "Impl.get_property"])
     prop("C02", GRAPH + ["CallStack.pop", "NonThreadedExecutor.eval_node", "CellsImpl.on_clear_trace", "CellsImpl.clear_value_at",
-                         "CellsImpl.clear_all_values", "node_has_key"])
+                         "CellsImpl.clear_all_values", "CellsImpl.on_namespace_change", "ReferenceImpl.on_inherit", "node_has_key"])
     prop("C05", EXECUTOR + ["CellsImpl._store_value", "Impl.get_property", "CellsImpl.on_eval_formula"],
          assumptions=["interpreter C-stack depth ('chains shorter than the limit evaluate without crashing') is not decided by any contract; probed by the bounded driver"])
     prop("C06", VALUES + ["TraceGraph.remove_with_descs", "TraceGraph.get_startnodes_from", "TraceManager.clear_with_descs",
                           "ReferenceGraph.remove_with_referred", "NonThreadedExecutor.eval_node"])
     prop("C08", EXECUTOR + ["CellsImpl.has_node", "TraceGraph.get_nodes_with", "TraceGraph.remove_with_descs", "TraceManager.clear_with_descs"])
     prop("C09", ["CallStack.append", "CallStack.pop", "NonThreadedExecutor.eval_node", "CellsImpl.on_eval_formula",
+                 "CellsImpl.clear_all_values", "CellsImpl.on_namespace_change",
                  "TraceGraph.clear_obj", "TraceGraph.get_nodes_with", "TraceManager.clear_obj", "TraceManager.clear_attr_referrers"])
     prop("C17", ["CallStack.rollback", "CallStack.pop", "NonThreadedExecutor._eval_formula", "NonThreadedExecutor._start_exec"])
 
@@ -55,9 +56,9 @@ def register3(R, P):
     P["C04"] = {"targets": ["abs_to_rel_tuple", "rel_to_abs_tuple"], "lemmas": ["C04-ROUNDTRIP-TUPLE"], "shards": {},
                 "trusted_base": ["str * int and len(str) as uninterpreted functions with the facts len('.'*n) == n, '.'*1 == '.'"],
                 "assumptions": ["the text layer (encoders/parsers), pickling and ziputil are outside the supported subset: bounded round-trip driver only"]}
-    P["C10"] = {"targets": list(P["_paths"]), "shards": {},
+    P["C10"] = {"targets": list(P["_paths"]) + ["ReferenceImpl.on_inherit"], "shards": {},
                 "trusted_base": ["str.split('.') / '.'.join as the identity on the component-sequence representation of dotted names"],
-                "assumptions": ["SpaceGraph.get_relative, ReferenceImpl.on_inherit, SpaceManager.new_ref/change_ref and DynBaseRefDict.wrap_impl are not yet under contract: "
+                "assumptions": ["SpaceGraph.get_relative, SpaceManager.new_ref/change_ref and DynBaseRefDict.wrap_impl are not yet under contract: "
                                 "bounded driver (full placement grid) only"]}
 
 
